@@ -10,6 +10,10 @@ from harness.checks_codec import adjudicate, run_mc
 CFG = {"union": True, "eof": False, "depth": 1, "max_fields": 5}
 
 
+class _CallerError(Exception):
+    pass
+
+
 def build_incremental(cs, One, name, batches, mode, compiled, rnd):
     from dissect.cstruct import compiler
 
@@ -22,6 +26,16 @@ def build_incremental(cs, One, name, batches, mode, compiled, rnd):
         if batch == 1 and rnd.random() < 0.6:
             f = fields[0]
             Inc.add_field(f.name, f.type, bits=f.bits)
+        elif rnd.random() < 0.25:
+            # the caller's own code fails inside the batch, after the fields were added: what was added is committed all the same
+            # (nothing of the state before the batch may survive next to the new fields; seed S108)
+            try:
+                with Inc.start_update():
+                    for f in fields:
+                        Inc.add_field(f.name, f.type, bits=f.bits)
+                    raise _CallerError
+            except _CallerError:
+                pass
         else:
             with Inc.start_update():
                 for f in fields:
@@ -117,6 +131,42 @@ def incremental_records(rnd, first_id, selfref=False, padnames=False):
     return out
 
 
+def selfarray_records(rnd):
+    """struct SA { ...; uint8 n; SA kids[n]; }: a forward reference to itself through an ARRAY member (finding F63).  The
+    specification's types are finite trees, so the scenario is judged through a two-level unfolding (the children's own `kids`
+    is an array of bytes) on inputs whose children have n = 0 - there the unfolding is exact."""
+    mode = dict(codec.gen_mode(rnd), align=rnd.random() < 0.7)
+    pre = [A.field(f"m{i}", A.t_int(rnd.choice(["uint8", "uint16", "uint32", "uint64", "int24"]))) for i in range(rnd.randrange(0, 3))]
+    u8 = A.t_int("uint8")
+    cnt = {"k": "id", "name": "n"}
+    dims = rnd.choice([1, 1, 2])
+
+    def level(kid_elem):
+        arr = A.t_arr(kid_elem, A.L_expr(cnt)) if dims == 1 else A.t_arr(A.t_arr(kid_elem, A.L_fixed(2)), A.L_expr(cnt))
+        return A.t_struct("SA", [dict(f) for f in pre] + [A.field("n", u8), A.field("kids", arr)])
+
+    twin = level(level(u8))
+    body = " ".join(f"{f['type']['name']} {f['name']};" for f in pre)
+    defs = f"struct SA {{ {body} uint8 n; SA kids[n]{'[2]' if dims == 2 else ''}; }};"
+    compiled = rnd.random() < 0.5
+    out = []
+    try:
+        cs = codec.load(defs, mode, compiled)
+        T = cs.SA
+    except Exception as e:  # noqa: BLE001
+        return [{"id": 0, "kind": "parse", "type": twin, "mode": mode, "defs": defs, "req_compiled": compiled, "loaderr": f"{type(e).__name__}: {e}"[:300]}]
+    noff = T.fields["n"].offset
+    for top_n in (0, 1, 2):
+        data = bytearray(160)
+        data[noff] = top_n
+        for i in range(noff):                     # the parent's own members carry data, the children are all zero (their n is 0)
+            data[i] = rnd.randrange(1, 256)
+        obs = {"layout": A.project_layout(T), "res": codec.observe_parse(T, twin, bytes(data), 0)}
+        out.append({"id": 0, "kind": "parse", "type": twin, "mode": mode, "consts": {"_": 0}, "input": list(data), "start": 0,
+                    "defs": defs, "req_compiled": compiled, "tag": "selfarr", "obs": obs})
+    return out
+
+
 def rename(v, old, new):
     if isinstance(v, dict):
         if v.get("k") == "struct" and v.get("cls") in (old, "Inc"):
@@ -148,9 +198,11 @@ class IncrementalCheck:
             recs += incremental_records(rnd, 0, selfref=True)
         for _ in range(600 if thorough else 40):
             recs += incremental_records(rnd, 0, padnames=True)
+        for _ in range(400 if thorough else 30):
+            recs += selfarray_records(rnd)
 
         def nontrivial(r):
-            return (r.get("tag") in ("incremental", "commits") and r["defs"].count(",") >= 1) or "*next" in r["defs"]
+            return (r.get("tag") in ("incremental", "commits") and r["defs"].count(",") >= 1) or "*next" in r["defs"] or r.get("tag") == "selfarr"
         adjudicate(rep, recs, {"stale-layout", "compilable", "value", "pos", "sizes", "layout", "status", "dump", "reparse", "equiv", "equiv-layout", "load"},
                    nontrivial=nontrivial)
 
